@@ -55,3 +55,8 @@ def amount_shaped(s):
 def reparse_timex(s):
     from datatypes_timex_expression import Timex
     return Timex(s)
+
+
+def model_cache():
+    from recognizers_text.model import ModelFactory
+    return ModelFactory._ModelFactory__cache
